@@ -53,6 +53,7 @@ fn runs_n(x: &Vector<f64>, y: &Vector<f64>, reps: usize) -> Runs {
 
 pub fn exec(case: &Value, out: &mut Out) {
     if gets(case, "data") == "over" { return exec_over(case, out); }
+    if gets(case, "data") == "zero" { return exec_zero(case, out); }
     let cid = geti(case, "cid");
     let len = getu(case, "len"); let want = getu(case, "want").max(1);
     let mode = gets(case, "mode"); let float = gets(case, "data") == "float";
@@ -171,6 +172,18 @@ pub fn gen(tier: &str, seed: u64, out: &mut Out) {
         }
         for _ in 0..(if quick { 1 } else { 6 }) { push(out, json!({"len": rng.gen_range(201..=100_000), "want": want, "mode": "plain", "data": "over", "shape": shapes[rng.gen_range(0..6)]})); }
     }
+    // (g) signed zeros: every product +0.0 / -0.0 (all negative, all positive, mixed, one non-zero product among them); the sum is
+    //     +0.0 (or the one product) bit for bit; every worker count, a spread of lengths (every length 0..200 in thorough)
+    let zshapes = ["neg", "pos", "mix", "one"];
+    for want in 1..=16usize {
+        let mut lens: Vec<usize> = vec![0, 1, 2, 3, want.saturating_sub(1), want, want + 1, 2 * want, 2 * want + 1, 4 * want + 3, 33, 64, 200];
+        if quick { for _ in 0..3 { lens.push(rng.gen_range(0..=200)); } } else { lens = (0..=200).collect(); }
+        for (j, len) in lens.into_iter().enumerate() {
+            let ns = if quick { 2 } else if j % 8 == 0 { 4 } else { 2 };
+            for s in 0..ns { push(out, json!({"len": len, "want": want, "mode": "plain", "data": "zero", "shape": zshapes[(j + want + s) % 4]})); }
+        }
+        for _ in 0..(if quick { 1 } else { 4 }) { push(out, json!({"len": rng.gen_range(201..=50_000), "want": want, "mode": "plain", "data": "zero", "shape": zshapes[rng.gen_range(0..4)]})); }
+    }
     // (e) random longer vectors up to 10^5
     for i in 0..(if quick { 32 } else { 320 }) {
         let want = 1 + i % 16; let len = if i % 4 == 0 { rng.gen_range(201..=2000) } else { rng.gen_range(2001..=100_000) };
@@ -216,4 +229,41 @@ fn exec_over(case: &Value, out: &mut Out) {
         e["a1"] = json!(bits(ra.r[0])); e["ad"] = json!(bits(ra.d)); if ra.panic { e["panic"] = json!(true); }
     }
     out.ev(e);
+}
+
+/// Signed zeros on exact data: every product is +0.0 or -0.0 (shape "neg": all -0.0, "pos": all +0.0, "mix": both), or all but one
+/// ("one").  The sequential definition accumulates from +0.0, and +0.0 + (-0.0) = +0.0: the sum of zero products is +0.0 whatever
+/// their signs, bit for bit, also in the threaded product.  Results are compared as bit patterns.
+fn exec_zero(case: &Value, out: &mut Out) {
+    let cid = geti(case, "cid"); let len = getu(case, "len"); let want = getu(case, "want").max(1); let shape = gets(case, "shape");
+    let mut rng = rng(geti(case, "seed") as u64, 19);
+    let orig = get_affinity(); let avail = orig.len().min(num_cpus::get()).max(1);
+    let _restore = Restore(orig.clone());
+    let mag = |rng: &mut rand::rngs::StdRng| -> f64 { rng.gen_range(1..=9) as f64 };
+    let (mut xf, mut yf) = (vec![0.0f64; len], vec![0.0f64; len]);
+    let flip = cid % 2 == 0;      // which operand holds the zeros' sign
+    for k in 0..len {
+        let neg = match shape { "neg" => true, "pos" => false, _ => rng.gen_bool(0.5) };
+        // a zero times a non-zero: the sign of the product is the product of the signs
+        let zneg = if flip { rng.gen_bool(0.5) } else { k % 2 == 0 };
+        xf[k] = if zneg { -0.0 } else { 0.0 };
+        yf[k] = mag(&mut rng) * if zneg != neg { -1.0 } else { 1.0 };
+        if rng.gen_bool(0.15) { yf[k] = if zneg != neg { -0.0 } else { 0.0 }; }       // zero times zero
+        if (k + cid as usize) % 3 == 0 { let t = xf[k]; xf[k] = yf[k]; yf[k] = t; }   // zeros on either side
+    }
+    let mut val: i64 = 0;
+    if shape == "one" && len > 0 { let j = rng.gen_range(0..len); xf[j] = mag(&mut rng) * if rng.gen_bool(0.5) { -1.0 } else { 1.0 }; yf[j] = mag(&mut rng) * if rng.gen_bool(0.5) { -1.0 } else { 1.0 }; val = (xf[j] * yf[j]) as i64; }
+    let x = Vector::<f64>::create(xf.clone()); let y = Vector::<f64>::create(yf.clone());
+    let k = want.min(avail); let off = (cid.max(0) as usize) % avail.max(1);
+    let cpus: Vec<usize> = (0..avail).map(|j| orig[(off + j) % avail]).collect();
+    if !set_affinity(&cpus[..k]) { eprintln!("TOOL-ERROR sched_setaffinity failed"); std::process::exit(2) }
+    let nt = num_cpus::get();
+    let r = runs(&x, &y);
+    let ra = runs_n(&x, &x, 1);           // aliased: squares of zeros are +0.0
+    let prods: Vec<f64> = (0..len).map(|i| xf[i] * yf[i]).collect();
+    let isz = |p: &f64| *p == 0.0;
+    out.ev(json!({"op": "pardot_z", "cid": cid, "mode": "plain", "phase": shape, "len": len, "nt": nt, "want": want, "avail": avail, "panic": r.panic || ra.panic,
+                  "r1": bits(r.r[0]), "r2": bits(r.r[1]), "r3": bits(r.r[2]), "d": bits(r.d), "ri": f2i(r.r[0]), "a1": bits(ra.r[0]), "ad": bits(ra.d),
+                  "npos": prods.iter().filter(|p| isz(p) && p.is_sign_positive()).count(), "nneg": prods.iter().filter(|p| isz(p) && p.is_sign_negative()).count(),
+                  "nnon": prods.iter().filter(|p| !isz(p)).count(), "val": val}));
 }
